@@ -284,6 +284,8 @@ class Interp:
         self._keycache = {}
         self.zero_atoms = set()      # atoms assumed to vanish (specialised interpretation)
         self.branch_atoms = set()    # atoms met in value-dependent branches
+        self.rel_stack = [rel]       # module of the function being interpreted
+        self._modcache = {}
 
     # -- configuration ---------------------------------------------------------------------
     def ask(self, q):
@@ -298,14 +300,18 @@ class Interp:
         return "/".join(self.fn_stack) if self.fn_stack else "?"
 
     # -- calling a method/function -----------------------------------------------------------
-    def call_function(self, fn, args, kwargs, qual, has_self):
+    def call_function(self, fn, args, kwargs, qual, has_self, rel=None, closure=None):
         if self.depth > self.MAXCALL:
             raise Unsupported("call depth")
         params = [a.arg for a in fn.args.args]
         if has_self:
             params = params[1:]
         defaults = fn.args.defaults
-        env = {}
+        env = dict(closure) if closure else {}
+        if fn.args.vararg is not None or fn.args.kwarg is not None or fn.args.kwonlyargs:
+            raise Unsupported(f"variadic signature of {qual}")
+        if len(args) > len(params):
+            raise Unsupported(f"too many arguments for {qual}")
         for i, p in enumerate(params):
             if i < len(args):
                 env[p] = args[i]
@@ -318,20 +324,83 @@ class Interp:
                 env[p] = self.ev(defaults[di], {})
         self.depth += 1
         self.fn_stack.append(qual)
+        self.rel_stack.append(rel or self.rel_stack[-1])
         try:
+            if isinstance(fn, ast.Lambda):
+                return self.ev(fn.body, env)
             r = self.exec_block(fn.body, env)
         finally:
             self.depth -= 1
             self.fn_stack.pop()
+            self.rel_stack.pop()
         if isinstance(r, _Return):
             return r.value
         return None
+
+    # -- module-level names ------------------------------------------------------------------
+    _SHORT = {"numpy": "np", "sympy": "sp", "scipy.constants": "sc"}
+
+    def module_value(self, rel, name):
+        """Value of a module-level name: constant tables, functions, lambdas, import aliases."""
+        key = (rel, name)
+        if key in self._modcache:
+            v = self._modcache[key]
+            if v is _PENDING:
+                raise Unsupported("recursive module-level definition of " + name)
+            return v
+        found = None
+        for st in self.S.module(rel).body:
+            if isinstance(st, ast.Assign):
+                for t in st.targets:
+                    if any(isinstance(n, ast.Name) and n.id == name for n in ast.walk(t)):
+                        found = (st, t)
+            elif isinstance(st, ast.FunctionDef) and st.name == name:
+                found = (st, None)
+            elif isinstance(st, (ast.Import, ast.ImportFrom)):
+                for al in st.names:
+                    if (al.asname or al.name.split(".")[0]) == name:
+                        found = (st, al)
+        if found is None:
+            raise KeyError(name)
+        st, t = found
+        self._modcache[key] = _PENDING
+        try:
+            if isinstance(st, ast.FunctionDef):
+                v = _Closure(st, None, rel, st.name)
+            elif isinstance(st, ast.Import):
+                full = t.name if t.asname else t.name.split(".")[0]
+                v = _Module(self._SHORT.get(full, full))
+            elif isinstance(st, ast.ImportFrom):
+                base = st.module or ""
+                if st.level and not base:
+                    full = t.name                      # from . import maths
+                elif st.level:
+                    full = base + "." + t.name
+                else:
+                    full = base + "." + t.name
+                v = _Module(self._SHORT.get(full, full))
+            else:
+                self.rel_stack.append(rel)
+                self.fn_stack.append(f"<module {rel}>")
+                try:
+                    val = self.ev(st.value, {})
+                    scratch = {}
+                    self.assign(t, val, scratch, st)
+                    v = scratch[name]
+                finally:
+                    self.rel_stack.pop()
+                    self.fn_stack.pop()
+        except BaseException:
+            del self._modcache[key]
+            raise
+        self._modcache[key] = v
+        return v
 
     def run_method(self, name, args=()):
         fn = self.core.get(self.cls + "." + name)
         if fn is None:
             raise AnalysisError(f"anchor vanished: {self.rel}::{self.cls}.{name}")
-        return self.call_function(fn, list(args), {}, name, True)
+        return self.call_function(fn, list(args), {}, name, True, rel=self.rel)
 
     # -- statements --------------------------------------------------------------------------
     def exec_block(self, stmts, env):
@@ -378,6 +447,8 @@ class Interp:
             it = self.ev(st.iter, env)
             if isinstance(it, Arr):
                 raise Unsupported("iteration over an array")
+            if isinstance(it, dict):
+                it = list(it)
             if not isinstance(it, (list, tuple, range, str)):
                 raise Unsupported(f"for over {type(it).__name__}")
             if len(it) > 4096:
@@ -399,6 +470,13 @@ class Interp:
             raise _Continue()
         if isinstance(st, ast.Delete):
             return None
+        if isinstance(st, ast.FunctionDef):
+            if st.decorator_list:
+                raise Unsupported("decorated local function")
+            env[st.name] = _Closure(st, env, self.rel_stack[-1], st.name)
+            return None
+        if isinstance(st, ast.Assert):
+            return None
         raise Unsupported(f"statement {type(st).__name__}")
 
     def assign(self, target, val, env, st):
@@ -412,7 +490,9 @@ class Interp:
                                  f"{len(target.elts)} names", st)
                     raise Unsupported("bad unpack")
                 vals = [self.index_arr(val, [i], st) for i in range(val.shape[0])]
-            elif isinstance(val, (list, tuple)):
+            elif isinstance(val, (list, tuple, _NT)):
+                if isinstance(val, _NT):
+                    val = val.values
                 if len(val) != len(target.elts):
                     raise Unsupported("unpack length")
                 vals = list(val)
@@ -449,7 +529,11 @@ class Interp:
                 spec.append((None if lo is None else _as_int(lo),
                              None if hi is None else _as_int(hi)))
             else:
-                spec.append(_as_int(self.ev(it, env)))
+                v = self.ev(it, env)
+                if isinstance(v, (tuple, list)) and not isinstance(sl, ast.Tuple):
+                    spec.extend(_as_int(x) for x in v)
+                else:
+                    spec.append(_as_int(v))
         return spec
 
     def index_arr(self, arr, spec, node):
@@ -596,8 +680,10 @@ class Interp:
         return Arr((len(items),) + shape, (None,) + tuple(var), out)
 
     def truth(self, v, node):
-        if isinstance(v, (bool, int, str, list, tuple, dict, type(None), Fraction)):
+        if isinstance(v, (bool, int, str, list, tuple, dict, type(None), Fraction, range)):
             return bool(v)
+        if isinstance(v, (_Closure, _NT, _NTClass, _Module, _Builtin)):
+            return True
         if isinstance(v, Arr) and v.rank == 0 and v.get(()).is_const():
             return v.get(()).cval() != 0
         raise Unsupported("condition on a symbolic value: " + unparse(node))
@@ -630,17 +716,19 @@ class Interp:
         if node.id in ("len", "range", "float", "int", "abs", "str", "isinstance", "list",
                        "tuple", "sum", "min", "max", "enumerate", "zip", "print"):
             return _Builtin(node.id)
-        # module-level constants of the module being interpreted (and of maths.py)
-        for rel in (self.rel, "maths.py"):
-            for st in self.S.module(rel).body:
-                if isinstance(st, ast.Assign) and len(st.targets) == 1 \
-                        and isinstance(st.targets[0], ast.Name) and st.targets[0].id == node.id:
-                    if isinstance(st.value, ast.Constant) and isinstance(st.value.value, str):
-                        return st.value.value
-                    c = const_value(st.value)
-                    if c is not None:
-                        return c
+        if node.id in ("set", "sorted", "reversed", "dict", "all", "any", "bool", "map",
+                       "frozenset", "divmod", "round", "pow", "callable", "getattr"):
+            return _Builtin(node.id)
+        # module-level names of the module being interpreted (and of maths.py)
+        for rel in dict.fromkeys((self.rel_stack[-1], self.rel, "maths.py")):
+            try:
+                return self.module_value(rel, node.id)
+            except KeyError:
+                continue
         raise Unsupported("unbound name " + node.id)
+
+    def ev_Lambda(self, node, env):
+        return _Closure(node, env, self.rel_stack[-1], "<lambda>")
 
     def ev_Starred(self, node, env):
         raise Unsupported("starred expression outside a display")
@@ -684,7 +772,9 @@ class Interp:
                 return
             g = node.generators[k]
             it = self.ev(g.iter, sub)
-            if not isinstance(it, (list, tuple, range)):
+            if isinstance(it, dict):
+                it = list(it)
+            if not isinstance(it, (list, tuple, range, str)):
                 raise Unsupported("comprehension over " + type(it).__name__)
             for x in it:
                 sub2 = dict(sub)
@@ -742,6 +832,11 @@ class Interp:
                 left = None
                 continue
             right = self.ev(comp, env)
+            if isinstance(op, (ast.Is, ast.IsNot)) and (left is None or right is None):
+                r = (left is right) if isinstance(op, ast.Is) else (left is not right)
+                result = result and r
+                left = right
+                continue
             if isinstance(left, (Arr, P)) or isinstance(right, (Arr, P)):
                 la = self.to_arr(left) if isinstance(left, (Arr, P)) else None
                 ra = self.to_arr(right) if isinstance(right, (Arr, P)) else None
@@ -950,6 +1045,10 @@ class Interp:
         base = self.ev(node.value, env)
         if isinstance(base, _Module):
             return _Module(base.name + "." + node.attr)
+        if isinstance(base, _NT):
+            if node.attr in base.cls.fields:
+                return base.values[base.cls.fields.index(node.attr)]
+            raise Unsupported("attribute " + src)
         if isinstance(base, (str, list, dict, tuple)):
             return _BoundMethod(base, node.attr)
         if isinstance(base, Arr):
@@ -981,7 +1080,12 @@ class Interp:
                 return base[lo:hi]
             return base[_as_int(self.ev(node.slice, env))]
         if isinstance(base, dict):
-            return base[_hashable(self.ev(node.slice, env))]
+            k = _hashable(self.ev(node.slice, env))
+            if k not in base:
+                raise PathEnds(f"KeyError {k!r}")
+            return base[k]
+        if isinstance(base, _NT):
+            return base.values[_as_int(self.ev(node.slice, env))]
         raise Unsupported("subscript of " + type(base).__name__)
 
     def read_key(self, k, node):
@@ -1006,15 +1110,39 @@ class Interp:
         return Arr(a.shape, a.var, dict(a.c), owner=k)
 
     # -- calls ---------------------------------------------------------------------------------
+    def callee_name(self, func, env):
+        """Dotted name of the callee with import aliases of the module resolved."""
+        fsrc = unparse(func)
+        root = func
+        while isinstance(root, ast.Attribute):
+            root = root.value
+        if isinstance(root, ast.Name) and root.id not in env and root.id not in (
+                "np", "sp", "self", "maths", "numerical", "sc", "sys"):
+            try:
+                v = self.ev_Name(root, env)
+            except Unsupported:
+                return fsrc
+            if isinstance(v, _Module) and v.name != root.id:
+                return v.name + fsrc[len(root.id):]
+        return fsrc
+
     def ev_Call(self, node, env):
-        fsrc = unparse(node.func)
+        fsrc = self.callee_name(node.func, env)
         # keyword/positional evaluation is lazy for a few intrinsics
         if fsrc in ("self.myprint", "print", "warnings.warn"):
             return None
         if fsrc == "np.einsum":
             return self.einsum(node, env)
-        args = [self.ev(a, env) for a in node.args]
-        kwargs = {k.arg: self.ev(k.value, env) for k in node.keywords if k.arg}
+        args = self._elts(node.args, env)
+        kwargs = {}
+        for k in node.keywords:
+            if k.arg:
+                kwargs[k.arg] = self.ev(k.value, env)
+            else:
+                extra = self.ev(k.value, env)
+                if not isinstance(extra, dict):
+                    raise Unsupported("** of a non-dictionary")
+                kwargs.update(extra)
         if fsrc.startswith("self.fd."):
             return self.fd_call(fsrc[8:], args, node)
         if fsrc.startswith("self."):
@@ -1024,7 +1152,7 @@ class Interp:
             fn = self.core.get(self.cls + "." + name)
             if fn is None:
                 raise Unsupported("unknown method " + name)
-            return self.call_function(fn, args, kwargs, name, True)
+            return self.call_function(fn, args, kwargs, name, True, rel=self.rel)
         if fsrc.startswith("maths."):
             name = fsrc[6:]
             if name == "safe_division":
@@ -1033,7 +1161,8 @@ class Interp:
             fn = self.maths.get(name)
             if fn is None:
                 raise Unsupported("unknown maths function " + name)
-            return self.call_function(fn, args, kwargs, "maths." + name, False)
+            return self.call_function(fn, args, kwargs, "maths." + name, False,
+                                      rel="maths.py")
         if fsrc in ("itertools.product", "product") and args and all(
                 isinstance(a, (range, list, tuple)) for a in args):
             import itertools as _it
@@ -1042,6 +1171,22 @@ class Interp:
             if len(out) > 4096:
                 raise Unsupported("long product")
             return out
+        if fsrc in ("itertools.permutations", "itertools.combinations",
+                    "itertools.combinations_with_replacement") and args \
+                and isinstance(args[0], (range, list, tuple)):
+            import itertools as _it
+            extra = [_as_int(a) for a in args[1:]] or (
+                [_as_int(kwargs["r"])] if "r" in kwargs else [])
+            out = list(getattr(_it, fsrc.split(".")[1])(list(args[0]), *extra))
+            if len(out) > 4096:
+                raise Unsupported("long iteration")
+            return out
+        if fsrc == "itertools.chain":
+            return [x for a in args for x in a]
+        if fsrc in ("collections.namedtuple", "namedtuple") and len(args) >= 2:
+            fields = args[1].replace(",", " ").split() if isinstance(args[1], str) \
+                else list(args[1])
+            return _NTClass(args[0], fields)
         if fsrc == "np.ndindex" and all(isinstance(a, (int, Fraction)) for a in args):
             import itertools as _it
             return list(_it.product(*[range(_as_int(a)) for a in args]))
@@ -1056,10 +1201,23 @@ class Interp:
                 if node.func.id == "safe_division":
                     return self.mul(self.to_arr(args[0]),
                                     self.recip(self.to_arr(args[1]), node), node)
-                return self.call_function(fn, args, kwargs, "maths." + node.func.id, False)
+                return self.call_function(fn, args, kwargs, "maths." + node.func.id, False,
+                                          rel="maths.py")
         f = self.ev(node.func, env)
         if isinstance(f, _Builtin):
             return self.builtin(f.name, args, kwargs, node)
+        if isinstance(f, _Closure):
+            return self.call_function(f.fn, args, kwargs, f.name, False, rel=f.rel,
+                                      closure=f.env)
+        if isinstance(f, _NTClass):
+            vals = list(args)
+            for fld in f.fields[len(args):]:
+                if fld not in kwargs:
+                    raise Unsupported("namedtuple field " + fld + " missing")
+                vals.append(kwargs[fld])
+            if len(vals) != len(f.fields):
+                raise Unsupported("namedtuple arity")
+            return _NT(f, vals)
         if isinstance(f, _Module):
             # a method / library function held in a variable
             if f.name.startswith("self.fd."):
@@ -1069,11 +1227,11 @@ class Interp:
             if f.name.startswith("maths."):
                 fn = self.maths.get(f.name[6:])
                 if fn is not None:
-                    return self.call_function(fn, args, kwargs, f.name, False)
+                    return self.call_function(fn, args, kwargs, f.name, False, rel="maths.py")
             if f.name.startswith("self.") and f.name.count(".") == 1:
                 fn = self.core.get(self.cls + "." + f.name[5:])
                 if fn is not None:
-                    return self.call_function(fn, args, kwargs, f.name[5:], True)
+                    return self.call_function(fn, args, kwargs, f.name[5:], True, rel=self.rel)
         if isinstance(f, _BoundMethod):
             return self.bound(f, args, kwargs, node)
         # module-level functions of the module being interpreted (maths.py internals)
@@ -1083,7 +1241,8 @@ class Interp:
                 if node.func.id == "safe_division":
                     return self.mul(self.to_arr(args[0]),
                                     self.recip(self.to_arr(args[1]), node), node)
-                return self.call_function(fn, args, kwargs, "maths." + node.func.id, False)
+                return self.call_function(fn, args, kwargs, "maths." + node.func.id, False,
+                                          rel="maths.py")
         raise Unsupported("call of " + fsrc)
 
     def builtin(self, name, args, kwargs, node):
@@ -1112,7 +1271,64 @@ class Interp:
             return tot
         if name == "str":
             return str(args[0])
+        seqs = (list, tuple, range, str, dict, set, frozenset)
+        if name in ("set", "frozenset", "sorted", "reversed", "enumerate", "zip", "dict",
+                    "all", "any", "min", "max", "map") and not all(
+                isinstance(a, seqs) or (name == "map" and i == 0)
+                for i, a in enumerate(args)):
+            if name in ("min", "max") and all(
+                    isinstance(a, (int, Fraction)) and not isinstance(a, bool) for a in args):
+                return min(args) if name == "min" else max(args)
+            raise Unsupported(f"{name} of a symbolic value")
+        if name in ("set", "frozenset"):
+            return list(dict.fromkeys(_hashable(x) for x in (args[0] if args else ())))
+        if name == "sorted":
+            if kwargs:
+                raise Unsupported("sorted with a key")
+            return sorted(args[0])
+        if name == "reversed":
+            return list(reversed(list(args[0])))
+        if name == "enumerate":
+            return [(i + _as_int(args[1]) if len(args) > 1 else i, x)
+                    for i, x in enumerate(args[0])]
+        if name == "zip":
+            return [tuple(t) for t in zip(*args)]
+        if name == "dict":
+            d = dict(args[0]) if args else {}
+            d.update(kwargs)
+            return d
+        if name in ("all", "any"):
+            vals = [self.truth(x, node) for x in args[0]]
+            return all(vals) if name == "all" else any(vals)
+        if name in ("min", "max"):
+            vals = list(args[0]) if len(args) == 1 else list(args)
+            if all(isinstance(a, (int, Fraction)) and not isinstance(a, bool) for a in vals):
+                return min(vals) if name == "min" else max(vals)
+            raise Unsupported(f"{name} of symbolic values")
+        if name == "map":
+            fnode = args[0]
+            out = []
+            for tup in zip(*args[1:]):
+                out.append(self.apply(fnode, list(tup), node))
+            return out
+        if name == "bool":
+            return self.truth(args[0], node)
         raise Unsupported("builtin " + name)
+
+    def apply(self, f, args, node):
+        """Call a function value with already evaluated arguments."""
+        if isinstance(f, _Closure):
+            return self.call_function(f.fn, args, {}, f.name, False, rel=f.rel, closure=f.env)
+        if isinstance(f, _Builtin):
+            return self.builtin(f.name, args, {}, node)
+        if isinstance(f, _BoundMethod):
+            return self.bound(f, args, {}, node)
+        if isinstance(f, _Module):
+            if f.name.startswith("np."):
+                return self.np_call(f.name[3:], args, {}, node)
+            if f.name.startswith("self.fd."):
+                return self.fd_call(f.name[8:], args, node)
+        raise Unsupported("call of a function value")
 
     def isinstance(self, v, tnode):
         names = [unparse(e) for e in tnode.elts] if isinstance(tnode, ast.Tuple) \
@@ -1150,7 +1366,22 @@ class Interp:
             if a == "items":
                 return list(o.items())
             if a == "get":
-                return o.get(*args)
+                return o.get(*[_hashable(x) for x in args[:1]], *args[1:])
+            if a == "values":
+                return list(o.values())
+        if isinstance(o, (list, tuple)):
+            if a == "index":
+                return list(o).index(args[0])
+            if a == "count":
+                return list(o).count(args[0])
+            if a == "append" and isinstance(o, list):
+                o.append(args[0])
+                return None
+            if a == "extend" and isinstance(o, list):
+                o.extend(args[0])
+                return None
+            if a == "copy":
+                return list(o)
         if isinstance(o, Arr):
             if a == "copy":
                 return o.copy()
@@ -1269,19 +1500,42 @@ class Interp:
                 return v.copy()
             return self.to_arr(v)
         if name == "stack":
-            ax = kwargs.get("axis", 0)
-            if _as_int(ax) != 0:
-                raise Unsupported("np.stack axis != 0")
-            return self.stack([self.to_arr(x) for x in args[0]], node)
+            ax = _as_int(kwargs.get("axis", args[1] if len(args) > 1 else 0))
+            out = self.stack([self.to_arr(x) for x in args[0]], node)
+            if ax < 0 or ax >= out.rank:
+                raise Unsupported("np.stack along a grid axis")
+            return self.move_axis(out, 0, ax)
         if name in ("append", "concatenate"):
             if name == "append":
                 parts = [self.to_arr(args[0]), self.to_arr(args[1])]
             else:
                 parts = [self.to_arr(x) for x in args[0]]
-            ax = kwargs.get("axis", args[2] if name == "append" and len(args) > 2 else None)
-            if ax is None or _as_int(ax) != 0:
-                raise Unsupported("concatenation along axis != 0")
-            return self.concat0(parts, node)
+            ax = kwargs.get("axis", args[2] if name == "append" and len(args) > 2 else (
+                args[1] if name == "concatenate" and len(args) > 1 else (
+                    0 if name == "concatenate" else None)))
+            if ax is None:
+                raise Unsupported("flattening append")
+            ax = _as_int(ax)
+            if ax < 0 or any(ax >= q.rank for q in parts):
+                raise Unsupported("concatenation along a grid axis")
+            if ax == 0:
+                return self.concat0(parts, node)
+            moved = [self.move_axis(q, ax, 0) for q in parts]
+            return self.move_axis(self.concat0(moved, node), 0, ax)
+        if name == "expand_dims":
+            a = self.to_arr(args[0])
+            ax = _as_int(kwargs.get("axis", args[1] if len(args) > 1 else None))
+            if ax < 0 or ax > a.rank:
+                raise Unsupported("expand_dims on a grid axis")
+            return Arr(a.shape[:ax] + (1,) + a.shape[ax:],
+                       tuple(a.var[:ax]) + (None,) + tuple(a.var[ax:]),
+                       {idx[:ax] + (0,) + idx[ax:]: v for idx, v in a.c.items()})
+        if name == "moveaxis":
+            a = self.to_arr(args[0])
+            i, j = _as_int(args[1]), _as_int(args[2])
+            if not (0 <= i < a.rank and 0 <= j < a.rank):
+                raise Unsupported("moveaxis on grid axes")
+            return self.move_axis(a, i, j, keep_owner=True)
         if name in ("sqrt", "exp", "log", "abs", "conj", "real", "imag", "sin", "cos",
                     "sign", "arccos"):
             a = self.to_arr(args[0])
@@ -1325,6 +1579,16 @@ class Interp:
         if name == "where":
             raise Unsupported("np.where")
         raise Unsupported("np." + name)
+
+    def move_axis(self, a, src, dst, keep_owner=False):
+        """np.moveaxis on the tensor axes."""
+        if src == dst:
+            return a
+        order = [k for k in range(a.rank) if k != src]
+        order.insert(dst, src)
+        return Arr([a.shape[p] for p in order], [a.var[p] for p in order],
+                   {tuple(idx[p] for p in order): v for idx, v in a.c.items()},
+                   owner=a.owner if keep_owner else None)
 
     def concat0(self, parts, node):
         rest = parts[0].shape[1:]
@@ -1398,7 +1662,7 @@ class Interp:
             raise Unsupported("implicit einsum output")
         ins, out = spec.split("->")
         ins = ins.split(",")
-        ops = [self.to_arr(self.ev(a, env)) for a in node.args[1:]]
+        ops = [self.to_arr(v) for v in self._elts(node.args[1:], env)]
         if len(ins) != len(ops):
             self.problem("einsum-operands", f"'{spec}' names {len(ins)} operands, "
                          f"{len(ops)} given", node)
@@ -1512,6 +1776,26 @@ class _Continue(Exception):
 class _Module:
     def __init__(self, name):
         self.name = name
+
+
+class _Closure:
+    """A function value: a def or lambda with the environment it was created in (late binding:
+    the environment is consulted when the function is called)."""
+    def __init__(self, fn, env, rel, name):
+        self.fn, self.env, self.rel, self.name = fn, env, rel, name
+
+
+class _NTClass:
+    def __init__(self, name, fields):
+        self.name, self.fields = name, list(fields)
+
+
+class _NT:
+    def __init__(self, cls, values):
+        self.cls, self.values = cls, list(values)
+
+
+_PENDING = object()
 
 
 class _Builtin:
